@@ -200,6 +200,7 @@ EXEMPT_CALLEES = {
     "std::os::unix::fs::fchown": "C04 exempts ownership",
     "libfs::common::copy_xattr": "C04 exempts extended attributes: failure is a warning by design",
     "xattr::FileExt::set_xattr": "C04 exempts extended attributes",
+    "simplelog::loggers::termlog::TermLogger::init": "logger set-up: falls back to the plain logger; no file-system effect",
 }
 _current = {"prim": None, "term": None, "fn": None}
 
@@ -403,10 +404,13 @@ def classify(fx, fn, local, depth=0, via="", seen=None):
     """Classify what happens to the fallible value held in `local`. Returns list[Classified]."""
     du = defuse(fn)
     res = []
-    seen = seen if seen is not None else set()
-    if local in seen or depth > 12:
+    # `seen` memoises per local: a threaded view holds several copies of a statement, and each copy leads here
+    seen = seen if seen is not None else {}
+    if local in seen:
+        return seen[local]
+    if depth > 12:
         return res
-    seen.add(local)
+    seen[local] = res
     if local == 0:
         return [Classified("RETURNED", via, ok=True)]
     for site, how in du.uses.get(local, []):
@@ -488,11 +492,32 @@ def classify(fx, fn, local, depth=0, via="", seen=None):
                     tgt = err_edge_of_switch(s2.node, 1)
                     ok, why, wit = check_err_arm(fn, s2.bb, tgt, {local})
                     res.append(Classified("MATCHED" if ok else "HANDLED-LOCALLY", via + why, wit, ok=ok))
+            # the same match on a path where the variant is already known (an inlined helper returned it)
+            for (b2, val, tgt) in _threaded_switches(fn).get(dl, []):
+                if val == 1:
+                    ok, why, wit = check_err_arm(fn, b2, tgt, {local})
+                    res.append(Classified("MATCHED" if ok else "HANDLED-LOCALLY", via + why, wit, ok=ok))
+                else:
+                    res.append(Classified("MATCHED", via + "success on this path", ok=True))
         elif k == "agg":
             res.extend(classify(fx, fn, lhs["l"], depth + 1, via + "wrapped -> ", seen))
         elif k == "cast":
             res.extend(classify(fx, fn, lhs["l"], depth + 1, via, seen))
     return res
+
+
+def _threaded_switches(fn, _memo={}):
+    """Switches that variant threading resolved on a path: {switched local: [(block, value, target)]}."""
+    k = id(fn)
+    if k not in _memo or _memo[k][0] is not fn:
+        d = {}
+        for bi, b in enumerate(fn.blocks):
+            t = b["term"]
+            ts = t.get("threaded_switch") if t["k"] == "goto" else None
+            if isinstance(ts, dict):
+                d.setdefault(ts["local"], []).append((bi, ts["val"], t["target"]))
+        _memo[k] = (fn, d)
+    return _memo[k][1]
 
 
 def _is_drop_elab_switch(fn, site):
@@ -546,6 +571,13 @@ def _classify_bool(fx, fn, bl, fail_val, via, matched_local):
                         work.append((n["lhs"]["l"], 1 if rv["op"] == "Ne" else 0))
                     else:
                         out.append(Classified("COMPARED", via + ": compared with a non-constant", ok=False))
+    for (l, fv) in list(seen):
+        for (b2, val, tgt) in _threaded_switches(fn).get(l, []):
+            if val == fv:
+                ok, why, wit = check_err_arm(fn, b2, tgt, {matched_local})
+                out.append(Classified("MATCHED" if ok else "HANDLED-LOCALLY", via + ": " + why, wit, ok=ok))
+            else:
+                out.append(Classified("MATCHED", via + ": success on this path", ok=True))
     if not out:
         out.append(Classified("DISCARDED", via + ": boolean never tested", ok=False))
     return out
@@ -697,7 +729,7 @@ def run(fx, crates=None, cfgname="A"):
 def _view(fx, f):
     import views
     try:
-        return views.view(fx, f.path, depth=3, threaded=False) or f
+        return views.view(fx, f.path, depth=4, threaded=True) or f
     except Exception:
         return f
 
